@@ -32,6 +32,9 @@ CHECKS = {
  "C13": ("explicit-state exploration of the real BitIter (state = full internal state) over every 2/3-byte stream, plus exhaustive enumeration of writer op sequences, naturals, bit strings and windows against a Vec<bool> model",
          "Every reachable reader state over every byte string of the bound length is visited and an invariant plus model agreement is evaluated on every transition; all writer histories to depth 3/4, all naturals to 2^16/2^22 and around every power of two, all windows over <=3-byte slices. Exhaustive within those bounds, so any cursor/offset/refill bug that manifests on a stream of <=3 bytes is found.",
          "Trusts the 80-line Vec<bool> reference model and the recursive definition of the natural code; streams longer than 3 bytes are not explored.", "5/C13"),
+ "C14": ("complete enumeration of the finite tables: every jet of the three families (codes, prefix-freeness, names, type names), every Elements jet against the C tables through the real C decoder and type inference, every Core jet against its Elements namesake, every extern declaration against the clang-dumped C prototype",
+         "All 368 + 471 + 428 jets and all ~590 extern items of simplicity-sys (497 functions). Exhaustive over these finite sets.",
+         "Trusts clang's AST for the C side and the regex extraction of the Rust extern blocks (an audit that finds fewer than 400 items fails). Return types and statics are compared but only reported as notes.", "5/C14"),
  "C18": ("exhaustive enumeration of all pointer-DAG shapes up to a node bound x sharing policies (no sharing, pointer sharing, every congruence as a class-sharing tracker), iterators stepped against a recursive reference; real Commit/Redeem DAGs with the real MaxSharing",
          "All canonical DAG shapes with <=6/7 nodes and out-degree <=2 through a harness type implementing the public DagLike, under NoSharing, InternalSharing and every congruence partition (<=5/6 nodes) as an abstract identity-hash sharing; post-order, right-to-left, pre-order, verbose pre-order (counters, depth, parent, depth limit) and is_shared_as compared item by item. Real CommitNode/RedeemNode DAGs of <=4/5 nodes with MaxSharing keyed on the actual identity hash.",
          "Trusts the 25-line recursive reference post-order. Larger shapes are not explored.", "5/C18"),
